@@ -1,36 +1,59 @@
 ---------------------------- MODULE TlvModelC07 ----------------------------
-(* C07 stage A: the scan machine instantiated with the packet schemas, over every element
-   sequence up to MaxLen over the packet alphabets (TlvModelPackets).  The machine (plus the
-   mandatory-name / LP post-checks) is the algorithm; WellFormed / Extract are the definition:
-       Verdict = accept  <=>  WellFormed           accept => out = Extract
-   The Name decoder is not a TlvModel: its law is an ASSUME over all component sequences.    *)
-EXTENDS TlvModelScan, TlvModelPackets
-CONSTANTS MaxLen, Full, Pks
+(* C07 stages A and B: the scan machine instantiated with the packet schemas, over every element
+   sequence up to MaxLen over the packet alphabets of level Lvl (TlvModelPackets).  The machine
+   (plus the mandatory-name / LP post-checks) is the algorithm; WellFormed / Extract are the
+   definition:      Verdict = accept  <=>  WellFormed           accept => out = Extract
+   The Name decoder is not a TlvModel: its law is an ASSUME over all component sequences.
+   Stage B: every terminal state is emitted (Emit, a PrintT line <<"S", pk, w, verdict, why, taken>>)
+   together with the letter table (IOEnv.C07_TAB: schema, letters, the value each letter parses
+   to); harness/props/c07.py serialises each sequence with the strict writer and runs the real
+   decoder on it.                                                                           *)
+EXTENDS TlvModelScan, TlvModelPackets, Json, IOUtils
+CONSTANTS MaxLen, Lvl, Pks
 
-C07Schema(cc) == SchemaOfPk(cc.pk)
+\* zero-arity constant definitions: TLC evaluates them once
+SchemaTab  == [pk \in Packets |-> SchemaOfPk(pk)]
+LettersTab == [pk \in Packets \cup {"name"} |-> Letters(pk, Lvl)]
+C07Schema(cc) == SchemaTab[cc.pk]
 C07Ic(cc)     == IcOfPk(cc.pk)
-C07Input(cc)  == LET L == Letters(cc.pk, Full) IN [i \in 1 .. Len(cc.w) |-> L[cc.w[i]]]
+C07Input(cc)  == [i \in 1 .. Len(cc.w) |-> LettersTab[cc.pk][cc.w[i]]]
 Inp == C07Input(c)
 
-Init == \E pk \in Pks :
-          \E w \in LetterSeqs(Len(AlphaOf(pk, Full)), Len(TailOf(pk)), MaxLen) :
+Init == \E pk \in Pks \ {"name"} :
+          \E w \in LetterSeqs(Len(AlphaOf(pk, Lvl)), Len(TailOf(pk, Lvl)), MaxLen) :
             /\ c = [pk |-> pk, w |-> w]
-            /\ st = InitSt(SchemaOfPk(pk))
+            /\ st = InitSt(SchemaTab[pk])
 Spec == Init /\ [][Next]_vars
 
 AcceptIffWellFormed == Terminal => ((Verdict(c.pk, st) = "accept") <=> WellFormed(c.pk, Inp))
 ExtractEqual        == (Terminal /\ Verdict(c.pk, st) = "accept") => st.out = Extract(c.pk, Inp)
 \* a rejection always carries a reason (used for the signatures of implementation mismatches)
 RejectHasReason     == (Terminal /\ Verdict(c.pk, st) = "reject") => Why(c.pk, st) # ""
+Emit == Terminal => PrintT(<<"S", c.pk, c.w, Verdict(c.pk, st), Why(c.pk, st), st.taken>>)
 
 \* Name.from_bytes: accept <=> every component lies inside the Name; the components are the kids
-NameLaw == \A w \in LetterSeqs(Len(NameAlpha), Len(NameTail), MaxLen + 1) :
-             LET kids == [i \in 1 .. Len(w) |-> Letters("name", TRUE)[w[i]]]
-                 r == ParseValue(FName("name", N(7)), Node(N(7), kids))
-             IN /\ r.ok <=> WellFormedName(kids)
-                /\ (r.ok => r.fv.comps = ExtractName(kids))
+NameSeqs == LetterSeqs(Len(AlphaOf("name", Lvl)), Len(TailOf("name", Lvl)), MaxLen + 1)
+NameKids(w) == [i \in 1 .. Len(w) |-> LettersTab["name"][w[i]]]
+NameLaw == \A w \in NameSeqs :
+             LET r == ParseValue(FName("name", N(7)), Node(N(7), NameKids(w)))
+             IN /\ r.ok <=> WellFormedName(NameKids(w))
+                /\ (r.ok => r.fv.comps = ExtractName(NameKids(w)))
 ASSUME NameLaw
 ASSUME \A pk \in Packets : DistinctTypes(SchemaOfPk(pk))
+ASSUME "name" \notin Pks \/ \A w \in NameSeqs :
+          LET r == ParseValue(FName("name", N(7)), Node(N(7), NameKids(w)))
+          IN PrintT(<<"S", "name", w, IF r.ok THEN "accept" ELSE "reject", r.why, <<>>>>)
+
+\* letter table for the executor
+LetterValue(pk, e) ==
+  IF pk = "name" THEN [ok |-> e.fits, fv |-> [k |-> "comp", t |-> e.t, runs |-> e.runs], why |-> ""]
+  ELSE LET s == SchemaTab[pk]
+           i == Idx(s, e.t)
+       IN IF i = 0 \/ ~e.fits THEN Res(FALSE, None, "") ELSE ParseValue(ElemDesc(s[i]), e)
+ASSUME JsonSerialize(IOEnv.C07_TAB,
+         [pk \in Pks |-> [schema |-> IF pk = "name" THEN <<>> ELSE SchemaTab[pk], outer |-> OuterType(pk),
+                          letters |-> LettersTab[pk],
+                          values |-> [i \in 1 .. Len(LettersTab[pk]) |-> LetterValue(pk, LettersTab[pk][i])]]])
 
 \* ------------------------------------------------------------------ vacuity witnesses (must be VIOLATED)
 W_AcceptFull      == ~(Terminal /\ Verdict(c.pk, st) = "accept" /\ Len(Inp) = MaxLen)
